@@ -426,7 +426,13 @@ fn to_source_span(src: &NamedSource<String>, location: &Location) -> Option<Sour
             let start_byte = if char_offset == 0 {
                 0
             } else {
-                s.char_indices().nth(char_offset).map(|(i, _)| i)?
+                match s.char_indices().nth(char_offset) {
+                    Some((i, _)) => i,
+                    // The position just behind the last character (where errors about an
+                    // unexpected end of input are located) is a valid place for a label.
+                    None if s.chars().count() == char_offset => s.len(),
+                    None => return None,
+                }
             };
 
             // End in characters (exclusive)
